@@ -40,7 +40,7 @@ func NewUnpackInfo(dst string, header *tar.Header) (UnpackInfo, error) {
 
 	// Check for paths outside our directory, they are forbidden
 	target := filepath.Clean(path)
-	if !strings.HasPrefix(target, dst) {
+	if !pathWithin(target, filepath.Clean(dst)) {
 		return UnpackInfo{}, errors.New("invalid filename, traversal with \"..\" outside of current directory")
 	}
 
@@ -88,6 +88,19 @@ func NewUnpackInfo(dst string, header *tar.Header) (UnpackInfo, error) {
 	}
 
 	return result, nil
+}
+
+// pathWithin reports whether target is dir itself or lies below it. Both must
+// be cleaned paths. Unlike a plain prefix test it compares whole path segments,
+// so "/a/bc" is not within "/a/b".
+func pathWithin(target, dir string) bool {
+	if target == dir {
+		return true
+	}
+	if !strings.HasSuffix(dir, string(os.PathSeparator)) {
+		dir += string(os.PathSeparator)
+	}
+	return strings.HasPrefix(target, dir)
 }
 
 // IsSymlink describes whether the file being unpacked is a symlink
